@@ -140,6 +140,30 @@ func Receive(kind, state string, key []byte, raw []byte) (r Recv) {
 	return
 }
 
+// ReceiveBudget runs the size-limited parsing receiver GetClassAdWithMaxSize with the
+// given byte budget on a fresh copy of the bytes (0 = unlimited).
+func ReceiveBudget(state string, key []byte, raw []byte, budget int) (r Recv) {
+	r.Kind = "parseMax"
+	defer func() {
+		if p := recover(); p != nil {
+			r.Err = fmt.Errorf("receiver panic: %v", p)
+		}
+	}()
+	e, err := NewEnd(state, key)
+	if err != nil {
+		r.Err = err
+		return
+	}
+	e.Conn.Feed(raw)
+	m := message.NewMessageFromStream(e.St)
+	r.Ad, r.Err = m.GetClassAdWithMaxSize(bg, budget)
+	if r.Err == nil {
+		r.Rest, r.RestErr = m.GetRemainingBytes(bg)
+		r.Unread = e.Conn.Unread()
+	}
+	return
+}
+
 // Trailer is what the harness, as the application, writes after an ad so that
 // the position at which each receiver stopped becomes observable.
 const Trailer = "~cedarverif-trailer~"
